@@ -16,7 +16,7 @@ esac
 hash=$( (cd "$REPO" && find . -path ./.git -prune -o -path ./_build -prune -o -type f \
       \( -name '*.c' -o -name '*.h' -o -name '*.asm' -o -name '*.inc' -o -name '*.S' -o -name 'Makefile.am' \
          -o -name 'Makefile.unx' -o -name 'make.inc' -o -name '*.mk' \) -print0 | sort -z | xargs -0 sha256sum; \
-      echo "$cfg $extra v4") | sha256sum | cut -c1-16)
+      echo "$cfg $extra v5"; sha256sum "$ROOT/tools/isa_classify.py") | sha256sum | cut -c1-16)
 dir="$BUILD/$cfg-$hash"
 exec 9>"$BUILD/.lock-$cfg"
 flock 9
